@@ -288,13 +288,37 @@ func writeOdd(st *store.Store, content []byte, s FileSpec, noSizes bool) (cid.Ci
 		size uint64
 		tsz  uint64
 	}
+	// some small leaves are INLINED: their CID carries the block itself in an
+	// identity multihash (what importers do with the inline option). The
+	// link system still asks its storage for them (ipld-prime does not
+	// special-case identity CIDs; an identity-aware store answers from the CID),
+	// so for the simulated store they are blocks like any other. Both raw and
+	// dag-pb wrapped leaves are inlined: for the latter the digest is the
+	// encoded node, which is longer than the content it holds.
+	r2 := tape.NewSplitMix(s.Seed ^ 0x1D1D)
+	inline := func(codec uint64, block []byte) cid.Cid {
+		h, err := mh.Sum(block, mh.IDENTITY, -1)
+		if err != nil {
+			panic("harness: identity multihash: " + err.Error())
+		}
+		c := cid.NewCidV1(codec, h)
+		st.Put(c, block)
+		return c
+	}
 	mkLeaf := func(b []byte) piece {
+		inl := r2.Next()%6 == 0 && len(b) <= 60
 		if r.Next()%2 == 0 {
+			if inl {
+				return piece{inline(cid.Raw, b), uint64(len(b)), uint64(len(b))}
+			}
 			c := putRaw(st, b)
 			return piece{c, uint64(len(b)), uint64(len(b))}
 		}
 		n := merkledag.NodeWithData(ft.FilePBData(b, uint64(len(b))))
 		setBuilder(n, s.CidV1)
+		if inl {
+			return piece{inline(cid.DagProtobuf, n.RawData()), uint64(len(b)), uint64(len(n.RawData()))}
+		}
 		st.Put(n.Cid(), n.RawData())
 		return piece{n.Cid(), uint64(len(b)), uint64(len(n.RawData()))}
 	}
